@@ -1,22 +1,88 @@
 /-
   Property C17 — v1 library: diff-then-patch reproduces the target; equality is coherent.
-  Statement file (proofs in JdProofs/V1ListDiffPatch.lean, namespace Jd.V1P).
+  Statement file. Proofs: LIST reading in memory: JdProofs/V1ListDiffPatch.lean (namespace `Jd.V1P`);
+  MERGE, SET and MULTISET readings in memory, and the text round trip (`Render`, then
+  `ReadDiffString`) for LIST / SET / MULTISET / MERGE diffs: JdProofs/V1SetDiffPatch.lean (namespace
+  `Jd.V1S`; the metadata predicate `MergeMode` is from JdProofs/V1MergeRender.lean, `Jd.V1M`).
 
   Model: `Jd.V1` (JdModel/V1/*): the v1 library `lib/` — in-path metadata, POSITIONAL list diffs
   (ascending index, then `-1` appends when the list grows; deletions from the back in descending
-  index order when it shrinks), v1 hashes. The model agrees with the real code on > 10^5 generated
-  cases on every run of ./check C17 / C18.
+  index order when it shrinks), v1 hashes. `V1.diffM m a b` is `a.Diff(b, m...)`, `V1.patchM a d` is
+  `a.Patch(d)`, `V1.equals m` is `Equals` with the metadata `m`, `V1.renderM nc false (liftDiff d)`
+  is `d.Render()` without colour, `V1.readDiffM nc` is `ReadDiffString`. Everything is about these
+  library functions; no reference interpreter in between. The model agrees with the real code on
+  > 10^5 generated cases on every run of ./check C17 / C18.
 
-  PROVED (LIST MODE: no SET / MULTISET / MERGE metadata, precision 0; `Setkeys` alone leaves arrays
-  lists in v1): full nesting — lists in lists, objects, scalars.
-  Hypotheses: documents as read from text (`listDoc`, `wf`, `finiteNums`, no void inside: `vfree`),
-  `FloatLaws` (a removed value equals itself), and `IdxLaws N` with every array of `a` no longer than N
-  (v1 list indices travel as float64: `jsonNumber(i)` in the diff, `int(jn)` in the patch; the laws say
-  this conversion is exact below N and for -1; true for N = 2^53).
-  NOT PROVED: SET / MULTISET / Setkeys+SET / MERGE modes and the text round trip (Render and
-  ReadDiffString): correspondence and oracle only.
+  WHAT IS STATED, AND FOR WHICH PART OF THE PROPERTY
+  * LIST MODE in memory (`ListMode m`: no SET / MULTISET / MERGE metadata, precision 0; `Setkeys`
+    alone leaves arrays lists in v1), full nesting — lists in lists, objects, scalars:
+    `v1_diff_then_patch`, `v1_diff_empty_iff_equal`, `v1_equals_is_v2_equals`.
+  * MERGE in memory (`V1M.MergeMode m`: MERGE present, no SET, no MULTISET, precision 0; a setkeys
+    metadata is allowed): `v1_merge_diff_then_patch`
+        ∃ r, V1.patchM a (V1.diffM m a b) = .ok r ∧ V1.equals m r b = true ∧ specEq r b = true ∧ …
+    and `v1_merge_diff_empty_iff_equal`. MORE than the property asks: `b` MAY contain nulls (in
+    memory a merge hunk holding null stores null, only void deletes; null-freeness is needed only
+    for the RFC 7386 rendering, C18).
+  * SET / MULTISET in memory, no setkeys, strict strategy, precision 0 (`V1S.SetMode m`: SET present —
+    v1 gives SET priority over MULTISET whatever the order, `set_wins_over_multiset` —;
+    `V1S.MsetMode m`; both instances of `V1S.Mode m o`, the v1 metadata `m` tied to the v2 options
+    `o` under which the specification `equivB` is read): `v1_set_diff_then_patch`,
+    `v1_mset_diff_then_patch`, `v1_setmodes_diff_then_patch`
+        ∃ r, V1.patchM a (V1.diffM m a b) = .ok r ∧ V1.equals m r b = true ∧ equivB o r b = true
+    and `v1_set_diff_empty_iff_equal`, `v1_mset_diff_empty_iff_equal`,
+    `v1_setmodes_diff_empty_iff_equal`.
+    THE HASH HYPOTHESIS `V1S.HashFaithful m o (subterms a ++ subterms b)`: among the sub-terms of `a`
+    and `b`, equal V1 hash codes only for `equivB`-equivalent nodes. It cannot be dropped from the
+    `equivB` part: the v1 hash pre-images have NO kind prefix for lists and objects, so `[]` (every
+    reading), `{}` and `""` all hash to the FNV offset basis (`v1_hash_alias_classes`), and
+    `[[]]` / `[{}]` under SET have an EMPTY diff and `Equals` TRUE although they are not equivalent
+    (`v1_alias_needs_hashFaithful`): this is known finding KF-C04-alias for the v1 hashes (larger
+    alias classes than v2). Not a failure of C17 as worded (which speaks of `Equals`); a failure of
+    `Equals` against the advertised equivalence. Confirmed on the Go code (/repo/lib).
+  * THE TEXT ROUND TRIP (`Render`, then `ReadDiffString`), relative to a codec contract:
+    `v1_render_then_read` — for EVERY v1 diff value `d` (list, set, multiset, merge hunks) with
+    well-formed hunks, the rendered text is read back as `V1S.normDiff d` (path elements as raw
+    documents, values with their Go array type forgotten, void values that render as nothing
+    dropped); `v1_render_then_read_raw` — a diff of raw documents without void values is read back
+    UNCHANGED; then, for the diff the library computes:
+    `v1_text_roundtrip_setmodes` / `_set` / `_mset` (the text is read back as THE diff itself, and
+    patching with it yields a document that `Equals` `b`), `v1_text_roundtrip_merge`,
+    `v1_text_roundtrip_list` (the diff read back differs from the diff at most in the Go type of
+    replaced arrays; patching `a` with the diff READ BACK succeeds and the result `Equals` `b`).
+    `v1_text_roundtrip_concrete`: a run without any codec hypothesis (the text is the one the Go code
+    prints).
+  * NOT PROVED: SET / MULTISET together with setkeys (known findings KF-C01-identperm and
+    KF-C01-keytwin live there: v1 forgets the set keys when patching) or together with MERGE;
+    precision ≠ 0 (`SetPrecision(eps)`) in every mode; coloured rendering (`Render(COLOR)`; the
+    theorems are for `color = false`). Those are covered by correspondence and oracle only.
+    No statement of C17 was found false inside the domains above.
+
+  HYPOTHESES and why
+    LIST: documents as read from text (`listDoc`, `wf`, `finiteNums`, no void inside: `vfree`),
+      `FloatLaws` (a removed value equals itself), and `IdxLaws N` with every array of `a` no longer
+      than N (v1 list indices travel as float64: `jsonNumber(i)` in the diff, `int(jn)` in the patch;
+      the laws say this conversion is exact below N and for -1; true for N = 2^53).
+    MERGE: `a`: `wf`, `rawDoc`; `b`: `wf`, `rawDoc`, `objVoidFree` (void is not a JSON value),
+      `finiteNums`; `FloatLaws`.
+    SET / MULTISET: `a b`: `setDoc` (plain arrays, sorted unique keys, finite numbers, no `-0`),
+      `DPL.memOK` (no void object member); `V1S.HashFaithful` (above); `FloatEq0` (equivalent numbers
+      have equal hash codes) and `FloatLaws`.
+    TEXT: in addition `vfree a`, `vfree b`, `b` not void (a reader never produces void; in the text a
+      void value prints nothing), and TWO HYPOTHESES ABOUT THE RUN, not about the documents:
+      `V1S.CodecOK nc d` — encoding/json is external to the model (`NumCodec` = number formatting and
+      parsing): the text of each path / non-void value of the diff has no newline and is read back
+      as that path / that value up to the Go array type; satisfiable (`V1S.Example.exD_codecOK`,
+      `exL_codecOK`, `exM_codecOK`) —, and RENDER SUCCESS `V1.renderM nc false (liftDiff d) = .ok (some
+      text)` (the model yields `.ok none` when the codec cannot print a number, an error or
+      panic outcome when a path cannot be written).
+      `v1_render_then_read`: `V1S.wfHunk` on every hunk (decidable: no nil metadata entry, at least
+      one `-` / `+` line, `checkDiffElement`).
 -/
 import JdProofs.V1ListDiffPatch
+import JdProofs.V1MergeRender
+import JdProofs.V1SetDiffPatch
+
+set_option autoImplicit false
 
 namespace Jd.Props.C17
 open Jd Jd.Spec Jd.V1P
@@ -45,5 +111,273 @@ theorem v1_diff_empty_iff_equal (m : V1.Metas) (hm : ListMode m) (a b : Json)
 
 /-- `Setkeys` alone is list mode in v1 -/
 example : ListMode [V1.Meta.setkeys ["id"]] := ListMode.setkeys ["id"]
+
+/-! ## MERGE reading, in memory -/
+
+/-- **C17, MERGE reading, in memory.** For documents as read from JSON text (`rawDoc`, `wf`), the
+    second one with finite numbers and no void member, and metadata `MergeMode m` (MERGE, no SET, no
+    MULTISET, precision 0; setkeys allowed): `a.Patch(a.Diff(b, m...))` succeeds and the result
+    `Equals` `b`, is structurally equal to it (`specEq`) and is a list document. `b` MAY contain
+    nulls. -/
+theorem v1_merge_diff_then_patch (L : FloatLaws) {m : V1.Metas} (hm : V1M.MergeMode m) (a b : Json)
+    (haw : a.wf = true) (har : a.rawDoc = true)
+    (hbw : b.wf = true) (hbr : b.rawDoc = true) (hbv : Merge.objVoidFree b = true)
+    (hbf : b.finiteNums = true) :
+    ∃ r, V1.patchM a (V1.diffM m a b) = .ok r ∧ V1.equals m r b = true ∧ specEq r b = true ∧
+      r.listDoc = true :=
+  V1S.v1_merge_diff_patch L hm a b haw har hbw hbr hbv hbf
+
+/-- MERGE reading: the diff is empty exactly when `Equals` holds -/
+theorem v1_merge_diff_empty_iff_equal (L : FloatLaws) {m : V1.Metas} (hm : V1M.MergeMode m)
+    (a b : Json) (haw : a.wf = true) (har : a.rawDoc = true)
+    (hbw : b.wf = true) (hbr : b.rawDoc = true) (hbv : Merge.objVoidFree b = true)
+    (hbf : b.finiteNums = true) :
+    V1.diffM m a b = [] ↔ V1.equals m a b = true :=
+  V1S.v1_merge_diff_empty_iff_equals L hm a b haw har hbw hbr hbv hbf
+
+/-! ## SET and MULTISET readings, in memory (no setkeys, strict strategy, precision 0) -/
+
+/-- **C17, SET or MULTISET reading, in memory** (`Mode m o`: v1 metadata `m` selecting the reading
+    of the options `o`, no setkeys, no MERGE, precision 0): the library call
+    `a.Patch(a.Diff(b, m...))` succeeds and the result `Equals` `b` (v1 `Equals` with the same
+    metadata) and is equivalent to `b` for the advertised equivalence (arrays as sets / bags) -/
+theorem v1_setmodes_diff_then_patch (F : FloatEq0) (L : FloatLaws) {m : V1.Metas} {o : Opts}
+    (M : V1S.Mode m o) (a b : Json)
+    (ha : a.setDoc = true) (hb : b.setDoc = true)
+    (ha' : DPL.memOK a = true) (hb' : DPL.memOK b = true)
+    (HF : V1S.HashFaithful m o (subterms a ++ subterms b)) :
+    ∃ r, V1.patchM a (V1.diffM m a b) = .ok r ∧ V1.equals m r b = true ∧ equivB o r b = true :=
+  V1S.v1_diff_patch_setmodes F L M a b ha hb ha' hb' HF
+
+/-- **C17, SET reading, in memory** (`SetMode m`: SET present — it wins over MULTISET whatever the
+    order —, no setkeys, no MERGE, precision 0 or absent) -/
+theorem v1_set_diff_then_patch (F : FloatEq0) (L : FloatLaws) {m : V1.Metas} (hm : V1S.SetMode m)
+    (a b : Json) (ha : a.setDoc = true) (hb : b.setDoc = true)
+    (ha' : DPL.memOK a = true) (hb' : DPL.memOK b = true)
+    (HF : V1S.HashFaithful m [.set] (subterms a ++ subterms b)) :
+    ∃ r, V1.patchM a (V1.diffM m a b) = .ok r ∧ V1.equals m r b = true ∧
+      equivB [.set] r b = true :=
+  V1S.v1_diff_patch_set F L hm a b ha hb ha' hb' HF
+
+/-- **C17, MULTISET reading, in memory** (`MsetMode m`: MULTISET present, SET absent, no setkeys, no
+    MERGE, precision 0 or absent) -/
+theorem v1_mset_diff_then_patch (F : FloatEq0) (L : FloatLaws) {m : V1.Metas}
+    (hm : V1S.MsetMode m) (a b : Json) (ha : a.setDoc = true) (hb : b.setDoc = true)
+    (ha' : DPL.memOK a = true) (hb' : DPL.memOK b = true)
+    (HF : V1S.HashFaithful m [.mset] (subterms a ++ subterms b)) :
+    ∃ r, V1.patchM a (V1.diffM m a b) = .ok r ∧ V1.equals m r b = true ∧
+      equivB [.mset] r b = true :=
+  V1S.v1_diff_patch_mset F L hm a b ha hb ha' hb' HF
+
+/-- SET / MULTISET readings: the diff is empty exactly when `Equals` holds -/
+theorem v1_setmodes_diff_empty_iff_equal (F : FloatEq0) (L : FloatLaws) {m : V1.Metas} {o : Opts}
+    (M : V1S.Mode m o) (a b : Json) (ha : a.setDoc = true) (hb : b.setDoc = true)
+    (ha' : DPL.memOK a = true) (hb' : DPL.memOK b = true)
+    (HF : V1S.HashFaithful m o (subterms a ++ subterms b)) :
+    V1.diffM m a b = [] ↔ V1.equals m a b = true :=
+  V1S.v1_diff_empty_iff_equals_setmodes F L M a b ha hb ha' hb' HF
+
+theorem v1_set_diff_empty_iff_equal (F : FloatEq0) (L : FloatLaws) {m : V1.Metas}
+    (hm : V1S.SetMode m) (a b : Json) (ha : a.setDoc = true) (hb : b.setDoc = true)
+    (ha' : DPL.memOK a = true) (hb' : DPL.memOK b = true)
+    (HF : V1S.HashFaithful m [.set] (subterms a ++ subterms b)) :
+    V1.diffM m a b = [] ↔ V1.equals m a b = true :=
+  V1S.v1_diff_empty_iff_equals_set F L hm a b ha hb ha' hb' HF
+
+theorem v1_mset_diff_empty_iff_equal (F : FloatEq0) (L : FloatLaws) {m : V1.Metas}
+    (hm : V1S.MsetMode m) (a b : Json) (ha : a.setDoc = true) (hb : b.setDoc = true)
+    (ha' : DPL.memOK a = true) (hb' : DPL.memOK b = true)
+    (HF : V1S.HashFaithful m [.mset] (subterms a ++ subterms b)) :
+    V1.diffM m a b = [] ↔ V1.equals m a b = true :=
+  V1S.v1_diff_empty_iff_equals_mset F L hm a b ha hb ha' hb' HF
+
+/-- the metadata predicates are inhabited as the caller writes them; v1 `dispatch` gives SET
+    priority over MULTISET whatever the order -/
+theorem set_wins_over_multiset :
+    V1S.SetMode [.set] ∧ V1S.MsetMode [.mset] ∧ V1S.SetMode [.mset, .set] ∧
+    V1M.MergeMode [.merge] :=
+  ⟨V1S.SetMode.single, V1S.MsetMode.single, V1S.SetMode.both, V1M.MergeMode.single⟩
+
+/-! ### Counter-witness: `HashFaithful` is needed (KF-C04-alias for the v1 hashes) -/
+
+/-- the alias classes of the v1 hash: lists and objects have NO kind prefix in the pre-image, so the
+    empty array (under every reading), the empty object and the empty string all hash to the FNV
+    offset basis (v2 has only `[]` under SET / MULTISET against `""`) -/
+theorem v1_hash_alias_classes (m : V1.Metas) :
+    V1.hashCode m (.arr .raw []) = fnvOffset ∧ V1.hashCode m (.obj []) = fnvOffset ∧
+    V1.hashCode m (.str "") = fnvOffset :=
+  V1S.Example.alias_classes m
+
+/-- `[[]]` against `[{}]` under SET: both are documents of the domain, the diff is EMPTY (so the
+    patched document is `a` itself) and `Equals` is TRUE, but they are not equivalent as sets:
+    `HashFaithful` cannot be dropped from the `equivB` part -/
+theorem v1_alias_needs_hashFaithful :
+    V1S.Example.alA.setDoc = true ∧ V1S.Example.alB.setDoc = true ∧
+    V1.diffM [.set] V1S.Example.alA V1S.Example.alB = [] ∧
+    V1.equals [.set] V1S.Example.alA V1S.Example.alB = true ∧
+    equivB [.set] V1S.Example.alA V1S.Example.alB = false :=
+  V1S.Example.alias_needs_hashFaithful
+
+example : V1S.Example.alA = .arr .raw [.arr .raw []] ∧ V1S.Example.alB = .arr .raw [.obj []] :=
+  ⟨rfl, rfl⟩
+
+/-! ## The text round trip: `Diff.Render`, then `ReadDiffString`
+
+  Relative to the codec contract `V1S.CodecOK nc d` and to render success (see the header). -/
+
+/-- **every v1 diff value** (list, set, multiset and merge hunks alike) whose hunks are well formed
+    (`wfHunk`, decidable) is read back from its rendered text as its normal form `normDiff d`: path
+    elements as raw documents, values with the Go array type forgotten (`untag`), void values that
+    render as nothing dropped (the void new value of a MERGE hunk is the bare `+` line and is kept).
+    On the TEXT: through `strings.Split` and the four-state line reader. -/
+theorem v1_render_then_read (nc : NumCodec) (d : V1.VDiff) (text : String)
+    (hw : ∀ h ∈ d, V1S.wfHunk h = true) (hc : V1S.CodecOK nc d)
+    (hr : V1.renderM nc false (V1.liftDiff d) = .ok (some text)) :
+    V1.readDiffM nc text = .ok (V1S.normDiff d) :=
+  V1S.v1_read_render nc d text hw hc hr
+
+/-- a diff made of raw documents, no void value, not a merge diff (`V1S.GH` on every hunk) is read
+    back from its rendered text UNCHANGED -/
+theorem v1_render_then_read_raw (nc : NumCodec) (d : V1.VDiff) (text : String)
+    (hg : ∀ h ∈ d, V1S.GH h) (hc : V1S.CodecOK nc d)
+    (hr : V1.renderM nc false (V1.liftDiff d) = .ok (some text)) :
+    V1.readDiffM nc text = .ok d :=
+  V1S.v1_read_render_raw nc d text hg hc hr
+
+/-- **C17, SET / MULTISET readings, through the text**: the diff read back from its rendered text IS
+    the diff, hence patching `a` with it yields a document that `Equals` `b` -/
+theorem v1_text_roundtrip_setmodes (F : FloatEq0) (L : FloatLaws) (nc : NumCodec)
+    {m : V1.Metas} {o : Opts} (M : V1S.Mode m o) (a b : Json)
+    (ha : a.setDoc = true) (hb : b.setDoc = true)
+    (ha' : DPL.memOK a = true) (hb' : DPL.memOK b = true)
+    (va : vfree a = true) (vb : vfree b = true) (hbv : b.isVoid = false)
+    (HF : V1S.HashFaithful m o (subterms a ++ subterms b))
+    (hc : V1S.CodecOK nc (V1.diffM m a b)) (text : String)
+    (hr : V1.renderM nc false (V1.liftDiff (V1.diffM m a b)) = .ok (some text)) :
+    V1.readDiffM nc text = .ok (V1.diffM m a b) ∧
+    ∃ r, V1.patchM a (V1.diffM m a b) = .ok r ∧ V1.equals m r b = true ∧ equivB o r b = true :=
+  V1S.v1_text_roundtrip_setmodes F L nc M a b ha hb ha' hb' va vb hbv HF hc text hr
+
+/-- SET reading, through the text, the metadata as the caller gives them: the document obtained by
+    patching `a` with the diff READ BACK `Equals` `b` -/
+theorem v1_text_roundtrip_set (F : FloatEq0) (L : FloatLaws) (nc : NumCodec)
+    {m : V1.Metas} (hm : V1S.SetMode m) (a b : Json)
+    (ha : a.setDoc = true) (hb : b.setDoc = true)
+    (ha' : DPL.memOK a = true) (hb' : DPL.memOK b = true)
+    (va : vfree a = true) (vb : vfree b = true) (hbv : b.isVoid = false)
+    (HF : V1S.HashFaithful m [.set] (subterms a ++ subterms b))
+    (hc : V1S.CodecOK nc (V1.diffM m a b)) (text : String)
+    (hr : V1.renderM nc false (V1.liftDiff (V1.diffM m a b)) = .ok (some text)) :
+    ∃ d' r, V1.readDiffM nc text = .ok d' ∧ V1.patchM a d' = .ok r ∧ V1.equals m r b = true ∧
+      equivB [.set] r b = true := by
+  obtain ⟨h1, r, h2, h3, h4⟩ :=
+    V1S.v1_text_roundtrip_setmodes F L nc hm.mode a b ha hb ha' hb' va vb hbv HF hc text hr
+  exact ⟨_, r, h1, h2, h3, h4⟩
+
+/-- MULTISET reading, through the text -/
+theorem v1_text_roundtrip_mset (F : FloatEq0) (L : FloatLaws) (nc : NumCodec)
+    {m : V1.Metas} (hm : V1S.MsetMode m) (a b : Json)
+    (ha : a.setDoc = true) (hb : b.setDoc = true)
+    (ha' : DPL.memOK a = true) (hb' : DPL.memOK b = true)
+    (va : vfree a = true) (vb : vfree b = true) (hbv : b.isVoid = false)
+    (HF : V1S.HashFaithful m [.mset] (subterms a ++ subterms b))
+    (hc : V1S.CodecOK nc (V1.diffM m a b)) (text : String)
+    (hr : V1.renderM nc false (V1.liftDiff (V1.diffM m a b)) = .ok (some text)) :
+    ∃ d' r, V1.readDiffM nc text = .ok d' ∧ V1.patchM a d' = .ok r ∧ V1.equals m r b = true ∧
+      equivB [.mset] r b = true := by
+  obtain ⟨h1, r, h2, h3, h4⟩ :=
+    V1S.v1_text_roundtrip_setmodes F L nc hm.mode a b ha hb ha' hb' va vb hbv HF hc text hr
+  exact ⟨_, r, h1, h2, h3, h4⟩
+
+/-- **C17, MERGE reading, through the text**: the rendered v1 merge diff is read back (as the diff
+    with its values untagged: a replaced array comes back as a plain `jsonArray`), and patching `a`
+    with the diff READ BACK yields a document that `Equals` `b` -/
+theorem v1_text_roundtrip_merge (L : FloatLaws) (nc : NumCodec) {m : V1.Metas}
+    (hm : V1M.MergeMode m) (a b : Json) (haw : a.wf = true) (har : a.rawDoc = true)
+    (hbw : b.wf = true) (hbr : b.rawDoc = true) (hbv : Merge.objVoidFree b = true)
+    (hbf : b.finiteNums = true)
+    (hc : V1S.CodecOK nc (V1.diffM m a b)) (text : String)
+    (hr : V1.renderM nc false (V1.liftDiff (V1.diffM m a b)) = .ok (some text)) :
+    ∃ d' r, V1.readDiffM nc text = .ok d' ∧ V1.patchM a d' = .ok r ∧ V1.equals m r b = true ∧
+      specEq r b = true ∧ r.listDoc = true :=
+  V1S.v1_text_roundtrip_merge L nc hm a b haw har hbw hbr hbv hbf hc text hr
+
+/-- **C17, LIST reading, through the text**: the rendered v1 list diff is read back (the v1 list
+    diff emits `jsonList`-typed values when an array is replaced by / replaces a non-array; they come
+    back as plain arrays), and patching `a` with the diff READ BACK yields a document that `Equals`
+    `b`; `b` not void (a reader never produces void) -/
+theorem v1_text_roundtrip_list (L : FloatLaws) {N : Nat} (I : IdxLaws N) (nc : NumCodec)
+    (m : V1.Metas) (hm : ListMode m) (a b : Json)
+    (ha1 : a.listDoc = true) (ha2 : a.wf = true) (ha3 : a.finiteNums = true) (ha4 : vfree a = true)
+    (ha5 : lenLe N a = true)
+    (hb1 : b.listDoc = true) (hb2 : b.wf = true) (hb3 : b.finiteNums = true) (hb4 : vfree b = true)
+    (hbv : b.isVoid = false)
+    (hc : V1S.CodecOK nc (V1.diffM m a b)) (text : String)
+    (hr : V1.renderM nc false (V1.liftDiff (V1.diffM m a b)) = .ok (some text)) :
+    ∃ d' r, V1.readDiffM nc text = .ok d' ∧ V1.patchM a d' = .ok r ∧ V1.equals m r b = true ∧
+      specEq r b = true :=
+  V1S.v1_text_roundtrip_list L I nc m hm a b ha1 ha2 ha3 ha4 ha5 hb1 hb2 hb3 hb4 hbv hc text hr
+
+/-- **the whole of C17 on a concrete pair, SET reading, through the text, no codec hypothesis**:
+    `{"s":[true,null,{"k":null}]}` → `{"s":[{"k":null},null,false],"t":null}`: the library's diff is
+    rendered (the text shown, evaluated by the kernel; the same text as the Go code prints), read
+    back (giving the diff itself), and patching with it yields a document that `Equals` the target;
+    only the IEEE-754 laws are left as assumptions -/
+theorem v1_text_roundtrip_concrete (F : FloatEq0) (L : FloatLaws) :
+    V1.renderM NativeRT.exCodec false
+        (V1.liftDiff (V1.diffM [.set] V1S.Example.exA V1S.Example.exB)) =
+      .ok (some "@ [\"s\",[\"set\"],{}]\n- true\n+ false\n@ [\"t\"]\n+ null\n") ∧
+    V1.readDiffM NativeRT.exCodec "@ [\"s\",[\"set\"],{}]\n- true\n+ false\n@ [\"t\"]\n+ null\n" =
+      .ok (V1.diffM [.set] V1S.Example.exA V1S.Example.exB) ∧
+    ∃ r, V1.patchM V1S.Example.exA (V1.diffM [.set] V1S.Example.exA V1S.Example.exB) = .ok r ∧
+      V1.equals [.set] r V1S.Example.exB = true ∧ equivB [.set] r V1S.Example.exB = true :=
+  V1S.Example.ex_text_roundtrip F L
+
+/-! ## Non-vacuity
+
+  The hypotheses of the in-memory theorems hold on concrete pairs (only the IEEE-754 laws stay
+  assumptions); the codec contract is satisfiable for a list-mode hunk carrying a `jsonList`-typed
+  value, for the set diff above and for a merge diff with a deletion. -/
+
+example : V1S.Example.exA = .obj [("s", .arr .raw [.bool true, .null, .obj [("k", .null)]])] ∧
+    V1S.Example.exB =
+      .obj [("s", .arr .raw [.obj [("k", .null)], .null, .bool false]), ("t", .null)] := ⟨rfl, rfl⟩
+
+example (F : FloatEq0) (L : FloatLaws) :
+    ∃ r, V1.patchM V1S.Example.exA (V1.diffM [.set] V1S.Example.exA V1S.Example.exB) = .ok r ∧
+      V1.equals [.set] r V1S.Example.exB = true ∧ equivB [.set] r V1S.Example.exB = true :=
+  V1S.Example.ex_set F L
+
+example (F : FloatEq0) (L : FloatLaws) :
+    ∃ r, V1.patchM V1S.Example.exA (V1.diffM [.mset] V1S.Example.exA V1S.Example.exB) = .ok r ∧
+      V1.equals [.mset] r V1S.Example.exB = true ∧ equivB [.mset] r V1S.Example.exB = true :=
+  V1S.Example.ex_mset F L
+
+example : V1S.HashFaithful [.set] [.set]
+      (subterms V1S.Example.exA ++ subterms V1S.Example.exB) ∧
+    V1S.HashFaithful [.mset] [.mset] (subterms V1S.Example.exA ++ subterms V1S.Example.exB) :=
+  ⟨V1S.Example.ex_hashFaithful_set, V1S.Example.ex_hashFaithful_mset⟩
+
+/-- MERGE in memory, a target holding `null` is reproduced -/
+example (L : FloatLaws) :
+    ∃ r, V1.patchM (.obj [("a", .str "x")])
+        (V1.diffM [.merge] (.obj [("a", .str "x")]) (.obj [("a", .null)])) = .ok r ∧
+      V1.equals [.merge] r (.obj [("a", .null)]) = true ∧ specEq r (.obj [("a", .null)]) = true ∧
+      r.listDoc = true :=
+  v1_merge_diff_then_patch L V1M.MergeMode.single _ _ (by decide) (by decide) (by decide)
+    (by decide) (by decide) (by decide)
+
+/-- the codec contract is satisfiable: the set diff of the concrete run, a list-mode hunk with a
+    `jsonList`-typed removed value, a merge diff with a deletion (bare `+` line) -/
+example : V1S.CodecOK NativeRT.exCodec V1S.Example.exD ∧
+    V1S.CodecOK NativeRT.exCodec V1S.Example.exL ∧ V1S.CodecOK NativeRT.exCodec V1S.Example.exM :=
+  ⟨V1S.Example.exD_codecOK, V1S.Example.exL_codecOK, V1S.Example.exM_codecOK⟩
+
+/-- `v1_render_then_read` instantiated: `@ ["a"]  - [null]  + true`, the removed `jsonList` array
+    comes back as a plain array -/
+example : V1.readDiffM NativeRT.exCodec "@ [\"a\"]\n- [null]\n+ true\n" =
+    .ok [{ path := [.str "a"], old := [.arr .raw [.null]], new := [.bool true] }] :=
+  v1_render_then_read NativeRT.exCodec V1S.Example.exL _ (by decide) V1S.Example.exL_codecOK
+    V1S.Example.exL_render
 
 end Jd.Props.C17
